@@ -106,7 +106,9 @@ Events(s) ==
                  \cup {[E("Unbond") EXCEPT !.v = v] : v \in {v \in Vals : IsBonded(s, v)}}
                  \cup {[E("Rebond") EXCEPT !.v = v] : v \in {v \in Vals : ~IsBonded(s, v)}}
             ELSE {})
-      \cup (IF "Accrue" \in Actions THEN {[E("Accrue") EXCEPT !.v = v, !.coins = c] : v \in {v \in Vals : HasMod(s, v)}, c \in AccrueCoins} ELSE {})
+      \* x/distribution allocates rewards in its begin-blocker only, before any transaction of the block
+      \cup (IF "Accrue" \in Actions /\ hist # <<>> /\ hist[Len(hist)].ev \in {"BeginBlock", "Accrue"}
+            THEN {[E("Accrue") EXCEPT !.v = v, !.coins = c] : v \in {v \in Vals : HasMod(s, v)}, c \in AccrueCoins} ELSE {})
 
 \* "bal" stands for the balance the delegation query reports
 Amt(s, e, k) == IF e.x = "bal" THEN (IF k \in DOMAIN s.bals /\ BIsNum(s.bals[k]) THEN s.bals[k] ELSE "0") ELSE e.x
@@ -202,7 +204,7 @@ Spec == Init /\ [][Next]_mcvars
 NoViolation == viol = {}
 
 \* observation-only variables are kept out of the fingerprint
-View == <<st, gh, inBlock, depth>>
+View == <<st, gh, inBlock, depth, IF hist = <<>> THEN "" ELSE hist[Len(hist)].ev>>
 
 \* schedule extraction for replay on the real keeper (simulation mode): prints the history once it is complete
 DumpSchedule == depth < MaxDepth \/ PrintT("SCHED " \o ToJson(hist))
